@@ -247,7 +247,7 @@ func c10(c *Ctx) {
 			var nilRets []ssa.Instruction
 			for _, b := range pr.Blocks {
 				for _, in := range b.Instrs {
-					if ret, ok := an.AsReturn(in); ok && len(ret.Results) == 1 && an.MayBeNilConst(an.RetVal(ret, 0)) {
+					if ret, ok := an.AsReturn(in); ok && len(ret.Results) == 1 && an.MayReturnNil(ret, 0) {
 						nilRets = append(nilRets, ret)
 					}
 				}
@@ -326,7 +326,7 @@ func (c *Ctx) everyMessageDispatched(rule string) {
 			n := 0
 			for _, b := range rm.Blocks {
 				ret, ok := an.AsReturn(b.Instrs[len(b.Instrs)-1])
-				if !ok || len(ret.Results) != 1 || !an.MayBeNilConst(an.RetVal(ret, 0)) || !an.InstrDominates(read, ret) {
+				if !ok || len(ret.Results) != 1 || !an.MayReturnNil(ret, 0) || !an.InstrDominates(read, ret) {
 					continue
 				}
 				n++
@@ -346,14 +346,25 @@ func (c *Ctx) everyMessageDispatched(rule string) {
 	if pr := c.fn(rule, load.RootMod, "*MTProto", "processResponse"); pr != nil {
 		// the dispatch: the first type assertion of the decoded object (the head of the type switch)
 		var head ssa.Instruction
+		var tas []*ssa.TypeAssert
 		for _, b := range pr.Blocks {
 			for _, in := range b.Instrs {
-				if ta, ok := in.(*ssa.TypeAssert); ok && ta.CommaOk && head == nil {
-					head = ta
+				if ta, ok := in.(*ssa.TypeAssert); ok && ta.CommaOk {
+					tas = append(tas, ta)
 				}
 			}
-			if head != nil {
-				break
+		}
+		// the head of the switch is the test no other test comes before on every path (block numbering is not
+		// program order once a helper was inlined)
+		for _, ta := range tas {
+			first := true
+			for _, o := range tas {
+				if o != ta && o.Block() != ta.Block() && o.Block().Dominates(ta.Block()) {
+					first = false
+				}
+			}
+			if first && head == nil {
+				head = ta
 			}
 		}
 		if head == nil {
@@ -364,11 +375,11 @@ func (c *Ctx) everyMessageDispatched(rule string) {
 		n := 0
 		for _, b := range pr.Blocks {
 			ret, ok := an.AsReturn(b.Instrs[len(b.Instrs)-1])
-			if !ok || len(ret.Results) != 1 || !an.MayBeNilConst(an.RetVal(ret, 0)) {
+			if !ok || len(ret.Results) != 1 || !an.MayReturnNil(ret, 0) {
 				continue
 			}
 			n++
-			if !an.InstrDominates(head, ret) {
+			if !an.InstrDominates(head, ret) && reachableAround(pr, head.Block(), ret.Block()) {
 				bad = append(bad, "the successful exit at "+c.pos(ret.Pos())+" is taken before the object is dispatched")
 			}
 		}
@@ -410,4 +421,19 @@ func (c *Ctx) msgIDFormula(rule string) {
 		}
 		r.Check(unix != nil && len(bad) == 0, rule, "msg-id:clock-derived-multiple-of-4", c.pos(gm.Pos()), "unix seconds << 32 | nanoseconds with the two low bits cleared: "+strings.Join(bad, "; "))
 	}
+}
+
+// reachableAround: can `to` be reached from the entry without entering block `around` - with the branches on the
+// nil-ness of error variables folded (an error handed back through the result variable of an inlined helper is not nil
+// on the way that set it, so the `if err != nil { return err }` behind the helper is decided on that way).
+func reachableAround(fn *ssa.Function, around, to *ssa.BasicBlock) bool {
+	cut := map[an.Edge]bool{}
+	for _, p := range around.Preds {
+		for si, s := range p.Succs {
+			if s == around {
+				cut[an.Edge{From: p, Succ: si}] = true
+			}
+		}
+	}
+	return an.Reach(fn, cut)[to]
 }
